@@ -187,9 +187,9 @@ Proof. induction cs as [|c cs IH]; [reflexivity|]. cbn [map all_shape3]. change 
 Lemma all_shape4_nat : forall cs : list (tensor F), all_shape4 (tms cs) = all_shape4 cs.
 Proof. induction cs as [|c cs IH]; [reflexivity|]. cbn [map all_shape4]. change (shape4 (tm c)) with (shape4 c). now rewrite IH. Qed.
 
-Theorem tt_to_tensor_nat (cs : list (tensor F)) : tt_to_tensor OpG (tms cs) = rmap tm (tt_to_tensor OpF cs).
+Theorem tt_to_tensor_nat (cs : list (tensor F)) : tt_to_tensor_raw OpG (tms cs) = rmap tm (tt_to_tensor_raw OpF cs).
 Proof.
-  unfold tt_to_tensor. destruct cs as [|fa rest]; [reflexivity|]. cbn [map].
+  unfold tt_to_tensor_raw. destruct cs as [|fa rest]; [reflexivity|]. cbn [map].
   change (tm fa :: tms rest) with (tms (fa :: rest)). rewrite all_shape3_nat. destruct (all_shape3 (fa :: rest)) as [ds|]; [|reflexivity].
   cbn [rbind]. apply (rbind_nat tm tm); [apply reshape_spec_natural|]. intros full.
   apply (rbind_nat tm tm); [apply tt_loop_nat|]. intros full'. apply reshape_spec_natural.
@@ -200,9 +200,9 @@ Proof. induction l as [|x [|y l] IH]; cbn [map last] in *; auto. Qed.
 Lemma removelast_tm (l : list (tensor F)) : removelast (tms l) = tms (removelast l).
 Proof. induction l as [|x [|y l] IH]; cbn [map removelast] in *; auto. now rewrite IH. Qed.
 
-Theorem tr_to_tensor_nat (cs : list (tensor F)) : tr_to_tensor OpG (tms cs) = rmap tm (tr_to_tensor OpF cs).
+Theorem tr_to_tensor_nat (cs : list (tensor F)) : tr_to_tensor_raw OpG (tms cs) = rmap tm (tr_to_tensor_raw OpF cs).
 Proof.
-  unfold tr_to_tensor. destruct cs as [|fa rest]; [reflexivity|]. cbn [map]. rewrite last_tm, removelast_tm.
+  unfold tr_to_tensor_raw. destruct cs as [|fa rest]; [reflexivity|]. cbn [map]. rewrite last_tm, removelast_tm.
   change (tm fa :: tms rest) with (tms (fa :: rest)). rewrite all_shape3_nat. destruct (all_shape3 (fa :: rest)) as [ds|]; [|reflexivity]. cbn [rbind].
   change (shape3 (tm fa)) with (shape3 fa). destruct (shape3 fa) as [xa|]; [|reflexivity]. cbn [rbind].
   change (shape3 (tm (last rest fa))) with (shape3 (last rest fa)). destruct (shape3 (last rest fa)) as [xl|]; [|reflexivity]. cbn [rbind].
@@ -237,19 +237,33 @@ Proof.
   apply (rbind_nat tm tm); [apply reshape_spec_natural|]. intros r'. cbn [rmap]. f_equal.
   rewrite <- h0. apply transpose_natural.
 Qed.
+Lemma validate_tt_nat (cs : list (tensor F)) : validate_tt (tms cs) = validate_tt cs.
+Proof. unfold validate_tt. destruct cs as [|c cs]; [reflexivity|]. cbn [map]. change (tm c :: tms cs) with (tms (c :: cs)). now rewrite all_shape3_nat. Qed.
+Lemma validate_tr_nat (cs : list (tensor F)) : validate_tr (tms cs) = validate_tr cs.
+Proof. unfold validate_tr. now rewrite map_length, all_shape3_nat. Qed.
+Lemma validate_ttm_nat (cs : list (tensor F)) : validate_ttm (tms cs) = validate_ttm cs.
+Proof. unfold validate_ttm. destruct cs as [|c cs]; [reflexivity|]. cbn [map]. change (tm c :: tms cs) with (tms (c :: cs)). now rewrite all_shape4_nat. Qed.
+Theorem tt_to_tensor_v_nat (cs : list (tensor F)) : tt_to_tensor OpG (tms cs) = rmap tm (tt_to_tensor OpF cs).
+Proof. unfold tt_to_tensor, tt_to_tensor_from. rewrite validate_tt_nat. destruct (validate_tt cs); cbn [rbind]; [apply tt_to_tensor_nat | reflexivity]. Qed.
+Theorem tr_to_tensor_v_nat (cs : list (tensor F)) : tr_to_tensor OpG (tms cs) = rmap tm (tr_to_tensor OpF cs).
+Proof. unfold tr_to_tensor. rewrite validate_tr_nat. destruct (validate_tr cs); cbn [rbind]; [apply tr_to_tensor_nat | reflexivity]. Qed.
+
 Lemma ein_chain_nat : forall (cs : list (tensor F)) ds ios a, ein_chain OpG (tms cs) ds ios a = h (ein_chain OpF cs ds ios a).
 Proof.
   induction cs as [|c cs IH]; intros ds ios a; cbn [map ein_chain]; [now rewrite h1|].
   destruct ds as [|x ds]; [now rewrite h1|]. destruct ios as [|i [|o ios]]; try (now rewrite h1).
   rewrite fsumn_hom. apply fsumn_ext'; intros k _. now rewrite hmul, getz, IH.
 Qed.
-Theorem ttm_to_tensor_einsum_nat (cs : list (tensor F)) : ttm_to_tensor_einsum OpG (tms cs) = rmap tm (ttm_to_tensor_einsum OpF cs).
+Theorem ttm_to_tensor_einsum_nat (cs : list (tensor F)) : ttm_to_tensor_einsum_raw OpG (tms cs) = rmap tm (ttm_to_tensor_einsum_raw OpF cs).
 Proof.
-  unfold ttm_to_tensor_einsum. destruct cs as [|fa rest]; [reflexivity|]. cbn [map].
+  unfold ttm_to_tensor_einsum_raw. destruct cs as [|fa rest]; [reflexivity|]. cbn [map].
   change (tm fa :: tms rest) with (tms (fa :: rest)). rewrite all_shape4_nat, map_length.
   destruct (all_shape4 (fa :: rest)) as [ds|]; [|reflexivity]. cbn [rbind]. destruct (ein_ok ds); [|reflexivity]. cbn [rmap]. f_equal.
   rewrite <- h0, <- transpose_natural, h0. f_equal. tab. rewrite fsumn_hom. apply fsumn_ext'; intros a _. apply ein_chain_nat.
 Qed.
+
+Theorem ttm_to_tensor_einsum_v_nat (cs : list (tensor F)) : ttm_to_tensor_einsum OpG (tms cs) = rmap tm (ttm_to_tensor_einsum OpF cs).
+Proof. unfold ttm_to_tensor_einsum. rewrite validate_ttm_nat. destruct (validate_ttm cs); cbn [rbind]; [apply ttm_to_tensor_einsum_nat | reflexivity]. Qed.
 
 (* ---------- PARAFAC2 (the validator compares entries with the carrier's order and is not natural; the reconstructions are, for
    whatever answer v the validator gave) ---------- *)
@@ -345,10 +359,10 @@ Proof.
   split; [intros; now apply cp_normsq_from_nat|].
   split; [intros; unfold cp_to_tensor; rewrite validate_cp_nat; now apply cp_to_tensor_from_nat|].
   split; [intros; unfold tucker_to_tensor; now apply multi_mode_dot_from_nat|].
-  split; [intros; now apply tt_to_tensor_nat|].
-  split; [intros; now apply tr_to_tensor_nat|].
+  split; [intros; now apply tt_to_tensor_v_nat|].
+  split; [intros; now apply tr_to_tensor_v_nat|].
   split; [intros; now apply ttm_to_tensor_nat|].
-  split; [intros; now apply ttm_to_tensor_einsum_nat|].
+  split; [intros; now apply ttm_to_tensor_einsum_v_nat|].
   split; [intros; now apply parafac2_to_slice_from_nat|].
   split; [intros; now apply parafac2_to_slices_from_nat|].
   intros; now apply parafac2_to_tensor_from_nat.
